@@ -33,6 +33,7 @@ type FuncContract struct {
 	Kind      string // func executor interface extern functype
 	Pkg       string // package name of the declaring contract file ("" for external file)
 	Requires  []*Clause
+	Captured  []*Clause // requires about captured variables of a closure: assumed in the body, established at closure creation (listed as assumption)
 	Ensures   []*Clause
 	Assigns   []string // heap components / ghost names; nil = default
 	HasAssign bool
@@ -238,6 +239,15 @@ func (cs *ContractSet) parseFile(path, pkg string) error {
 			}
 			cs.Invs = append(cs.Invs, &StructInv{Pkg: pkg, Type: strings.TrimSpace(rest[:i]), Clause: c})
 			cur, curLoop = nil, nil
+		case "requires_captured":
+			if cur == nil {
+				return fail("requires_captured outside a block")
+			}
+			c, err := parseClause("requires", rest)
+			if err != nil {
+				return err
+			}
+			cur.Captured = append(cur.Captured, c)
 		case "requires", "ensures":
 			if cur == nil {
 				return fail("%s outside a block", word)
